@@ -846,7 +846,11 @@ impl Property for C12 {
                 }
                 distinfo = Distinfo::from_bytes(&render_distinfo(&sc.files, &recs));
             }
-            // ---- verification round
+            // ---- verification round (odd rounds use a clone of the record)
+            if round % 2 == 1 {
+                distinfo = distinfo.clone();
+                ctx.probe("verified-on-a-clone");
+            }
             for (i, fsp) in sc.files.iter().enumerate() {
                 let p = stored(&sd, &fsp.name);
                 let ps = stored_model(&sd, &fsp.name);
